@@ -817,6 +817,104 @@ def _convert_spans(f, verdicts):
 
 
 # -------------------------------------------------------------------- driver
+# ------------------------------------------------------- shared emission tail
+def _sink_shared_tail(f, notes):
+    """``V = None`` at the top of the main loop body, arms that set
+    ``V = <node>``, and one trailing ``if V is not None: EMIT``: the tail is
+    copied to the end of every arm that sets V at its own level (the arm
+    cannot fall through without having set it) and dropped from the arms
+    that never mention V.  Anything else is outside this normal form."""
+    for loop in [n for n in ast.walk(f) if isinstance(n, ast.While)]:
+        body = loop.body
+        if len(body) < 3:
+            continue
+        tail = body[-1]
+        if not (isinstance(tail, ast.If) and not tail.orelse and isinstance(
+                tail.test, ast.Compare) and len(tail.test.ops) == 1
+                and isinstance(tail.test.ops[0], ast.IsNot)
+                and isinstance(tail.test.left, ast.Name)
+                and isinstance(tail.test.comparators[0], ast.Constant)
+                and tail.test.comparators[0].value is None):
+            continue
+        v = tail.test.left.id
+        chain = body[-2]
+        if not isinstance(chain, ast.If):
+            continue
+        inits = [st for st in body[:-2]
+                 if isinstance(st, ast.Assign) and len(st.targets) == 1
+                 and isinstance(st.targets[0], ast.Name)
+                 and st.targets[0].id == v]
+        if len(inits) != 1 or not (isinstance(
+                inits[0].value, ast.Constant)
+                                   and inits[0].value.value is None):
+            continue
+        # arms of the chain
+        arms = []
+        c = chain
+        while True:
+            arms.append(c.body)
+            if len(c.orelse) == 1 and isinstance(c.orelse[0], ast.If):
+                c = c.orelse[0]
+                continue
+            if c.orelse:
+                arms.append(c.orelse)
+            break
+
+        def mentions(stmts):
+            return any(isinstance(x, ast.Name) and x.id == v
+                       for st in stmts for x in ast.walk(st))
+
+        plan = []
+        for arm in arms:
+            if not mentions(arm):
+                plan.append(False)
+                continue
+            own = [st for st in arm
+                   if isinstance(st, ast.Assign) and len(st.targets) == 1
+                   and isinstance(st.targets[0], ast.Name)
+                   and st.targets[0].id == v]
+            nested = sum(1 for st in arm for x in ast.walk(st)
+                         if isinstance(x, ast.Name) and x.id == v
+                         and isinstance(x.ctx, ast.Store)) - len(own)
+            if len(own) != 1 or nested or (isinstance(
+                    own[0].value, ast.Constant)
+                                            and own[0].value.value is None):
+                raise AnalysisError(
+                    f'parse_smtlib: line {arm[0].lineno}: arm sets the '
+                    f'shared result "{v}" conditionally; the emission tail '
+                    'cannot be attributed to it')
+            plan.append(True)
+        for arm, has in zip(arms, plan):
+            if has:
+                arm.extend(clone(st) for st in tail.body)
+        body.remove(tail)
+        body.remove(inits[0])
+        notes.append(f'shared emission tail "if {v} is not None" copied '
+                     f'into {sum(plan)} arm(s)')
+        return True
+    return False
+
+
+def _lower_ifexp_assign(f):
+    """``x = A if T else B`` -> if T: x = A else: x = B (statement form,
+    so that the walk over the CFG sees the decision)."""
+    n = 0
+    for blk in _blocks(f):
+        for i, st in enumerate(list(blk)):
+            if isinstance(st, ast.Assign) and isinstance(
+                    st.value, ast.IfExp) and len(st.targets) == 1:
+                a = clone(st)
+                a.value = st.value.body
+                b = clone(st)
+                b.value = st.value.orelse
+                new = ast.If(test=st.value.test, body=[a], orelse=[b])
+                ast.copy_location(new, st)
+                blk[blk.index(st)] = new
+                n += 1
+    return n
+
+
+
 def _blocks(f):
     """All statement lists of the function (for in-place rewriting)."""
     out = []
@@ -845,6 +943,9 @@ def normalised_scanner(m, fname='parse_smtlib'):
     f._parent = getattr(f0, '_parent', None)
     _rename(f, _canonical_names(f))
     verdicts, notes = [], []
+    while _sink_shared_tail(f, notes):
+        pass
+    _lower_ifexp_assign(f)
     # "end = text.find(c, pos) + 1" -> "end = text.find(c, pos); end = end + 1"
     for body in _blocks(f):
         i_ = 0
